@@ -119,6 +119,17 @@ def run(run: common.Run):
             s = np.array([[[rng.randint(20, 200) for _ in range(src.w)] for _ in range(src.h)] for _ in range(nb)], float)
             r = np.array([[[rng.randint(30, 150) for _ in range(ref.w)] for _ in range(ref.h)] for _ in range(nb)], float)
             rv = np.ones((ref.h, ref.w), bool)
+            if case['model'] == 'gain-offset' and case['thresh'] is not None:
+                # an exactly constant (saturated / clipped) source patch wider than the kernel: zero variance in float32, the fit is
+                # 0/0 there and the parameters are in-painted - the pixels must not be lost
+                kh, kw = case['kernel']
+                pg = ref if src.px <= ref.px else src
+                ph_ = min(src.h - 2, -(-(kh + 3) * pg.py // src.py))
+                pw_ = min(src.w - 2, -(-(kw + 3) * pg.px // src.px))
+                if ph_ >= 2 and pw_ >= 2:
+                    r0_, c0_ = rng.randrange(1, src.h - ph_), rng.randrange(1, src.w - pw_)
+                    s[:, r0_:r0_ + ph_, c0_:c0_ + pw_] = 100.0
+                    run.hist['gain-offset with in-painting: exactly constant source patch'] += 1
         else:
             # arbitrary data (negative, zero) and reference holes: only the subset relation is required
             s = np.array([[[rng.randint(-50, 200) for _ in range(src.w)] for _ in range(src.h)] for _ in range(nb)], float)
